@@ -48,7 +48,7 @@ CLAIMED = {
              'call advances the count by one and moves the handler to the saturated list exactly at count=hi (saturation_step), after which it '
              'is never designated (not_active_not_handler); beyond hi: one fatal report naming exactly the saturated matches (beyond_hi); '
              'inverted RT_TIMES leaves nothing behind (rt_times_inverted*). count<=hi for all reachable worlds: invariant in Props/C14. '
-             'Correspondence: all 0<=L<=H<=3, inf, inverted, static forms, alone/stacked. Over whole histories (any script): the counter equals the number of OK reports naming the expectation = accepted calls it handled, and is <= hi (count_eq_handled, Props/C03_History.lean). Second tie (translator): sequence_handler_base::is_satisfied/is_saturated/increment_call regenerated from /repo\'s current source by tools/cxx2lean.py on every run and proved equal to the model definitions (is_satisfied_tie, is_saturated_tie, increment_call_tie). Spelling harness as C01.',
+             'Correspondence: all 0<=L<=H<=3, inf, inverted, static forms, alone/stacked. Over whole histories (any script): the counter equals the number of OK reports naming the expectation = accepted calls it handled, and is <= hi (count_eq_handled, Props/C03_History.lean). Second tie (translator): sequence_handler_base::is_satisfied/is_saturated/increment_call regenerated from /repo\'s current source by tools/cxx2lean.py on every run and proved equal to the model definitions (is_satisfied_tie, is_saturated_tie, increment_call_tie). Spelling harness as C01. Tie/Delegates.lean: the public is_satisfied / is_saturated are the handlers answers under the lock (public_is_satisfied_tie, public_is_saturated_tie).',
         ref='DESIGN.md §4 C03', technique='Lean 4 proof + model/implementation correspondence'),
     'C04': dict(
         text='Theorems: release reports exactly one non-fatal unfulfilled iff not reported, attached and count<lo (release_report, '
@@ -65,12 +65,12 @@ CLAIMED = {
     'C08': dict(
         text='Theorems: WITH clauses evaluated in order up to the first failing (with_short_circuit, matches_iff); side effects once each in '
              'order then RETURN/THROW once, or stop at the first throwing effect (actions_shape); full event log of an accepted call '
-             '(eval_log_shape); a throwing call still counts (throwing_call_counts); actions belong to the handler only (C02_frame). Re-entrant side effects (a SIDE_EFFECT calling a mock function): events of the nested call directly after the effect, remaining effects on the world it left, exceptions propagate (reentrant_effect_events); no nesting = plain call (no_reentrancy_is_plain_call). Second tie (translator): trompeloeil::mock_func regenerated from /repo\'s current source by tools/cxx2lean.py on every run and proved equal to the model definitions (mock_func_order: parameters traced before run_actions, return value last). Also regenerated and tied (Tie/NoMatch.lean): call_matcher::matches / match_conditions (verdict = parameters and all WITH predicates; exactly the predicates up to and including the first failing one are evaluated, none if a parameter rejects: match_conditions_tie, matches_tie), the member report_mismatch (sets `reported`, names the first failing WITH, evaluates no predicate beyond it: report_mismatch_member_eq/_tie), the free report_mismatch (lists every matching saturated expectation or else a Tried explanation of every active one: report_mismatch_free_eq/_tie), hook_last (newest first). What the caller receives: harness/retref (19 cases, ASan+UBSan): every way of writing RETURN / LR_RETURN for value, reference, const-reference and pointer returns, the received object identified by address; proof side: the overload set of decay_return_type regenerated as a table and tied (Tie/DecayReturn.lean: an lvalue RETURN expression, const or not, leaves the clause as that very object).',
+             '(eval_log_shape); a throwing call still counts (throwing_call_counts); actions belong to the handler only (C02_frame). Re-entrant side effects (a SIDE_EFFECT calling a mock function): events of the nested call directly after the effect, remaining effects on the world it left, exceptions propagate (reentrant_effect_events); no nesting = plain call (no_reentrancy_is_plain_call). Second tie (translator): trompeloeil::mock_func regenerated from /repo\'s current source by tools/cxx2lean.py on every run and proved equal to the model definitions (mock_func_order: parameters traced before run_actions, return value last). Also regenerated and tied (Tie/NoMatch.lean): call_matcher::matches / match_conditions (verdict = parameters and all WITH predicates; exactly the predicates up to and including the first failing one are evaluated, none if a parameter rejects: match_conditions_tie, matches_tie), the member report_mismatch (sets `reported`, names the first failing WITH, evaluates no predicate beyond it: report_mismatch_member_eq/_tie), the free report_mismatch (lists every matching saturated expectation or else a Tried explanation of every active one: report_mismatch_free_eq/_tie), hook_last (newest first). What the caller receives: harness/retref (19 cases, ASan+UBSan): every way of writing RETURN / LR_RETURN for value, reference, const-reference and pointer returns, the received object identified by address; proof side: the overload set of decay_return_type regenerated as a table and tied (Tie/DecayReturn.lean: an lvalue RETURN expression, const or not, leaves the clause as that very object). Clause plumbing (Tie/ClausePlumbing.lean): the run-time parts of with / sideeffect / handle_return / handle_throw ::action and set_return are regenerated; clauses_registered: the matcher holds the WITH and SIDE_EFFECT clauses in the order written and the functor of its one RETURN or THROW; throw_handler_t (throw_path_tie: the THROW functor is evaluated once, abort if it comes back). The std::exception thrown by clauses of the world harness carries a nested non-std exception for odd ids and the caller must receive it.',
         ref='DESIGN.md §4 C08', technique='Lean 4 proof + model/implementation correspondence'),
     'C13': dict(
         text='Theorems: unexpected destruction iff no live requirement (unexpected_iff_none); with requirements alive nothing but sequence '
              'reports and EACH requirement becomes died (expected_destruction via notify_fold); still-alive once and forgotten by the object '
-             '(still_alive, forgotten_by_object); copies/moves do not inherit, assignment keeps (copies_do_not_inherit, assign_keeps). Second tie (translator): ~deathwatched, ~lifetime_monitor regenerated from /repo\'s current source by tools/cxx2lean.py on every run and proved equal to the model definitions (deathwatched_dtor_order, lifetime_monitor_dtor_order, killw_sem, releasemon_sem: the interpreted traces are the model transitions of killw / releasemon). Copies, moves and assignments of watched objects are made through every view of the source (non-const lvalue, const view, rvalue, const rvalue: they select different constructors of deathwatched<T>); the copy / move constructors of null_on_move are translated and tied (a copy or a move of a deathwatched object holds no requirement). Pointer level (Props/C13_MonitorChain.lean over Model/Chain.lean, Lemmas/Chain.lean): for every history the older_monitor pointers from the head of each watched object spell the list of live requirements on it, newest first (monitor_chains_refine_world), so the walk in ~deathwatched tells exactly those (death_walk_visits_requirements); the unlink-this loop of ~lifetime_monitor is proved to be erase on a represented chain (rep_unlinkThis).',
+             '(still_alive, forgotten_by_object); copies/moves do not inherit, assignment keeps (copies_do_not_inherit, assign_keeps). Second tie (translator): ~deathwatched, ~lifetime_monitor regenerated from /repo\'s current source by tools/cxx2lean.py on every run and proved equal to the model definitions (deathwatched_dtor_order, lifetime_monitor_dtor_order, killw_sem, releasemon_sem: the interpreted traces are the model transitions of killw / releasemon). Copies, moves and assignments of watched objects are made through every view of the source (non-const lvalue, const view, rvalue, const rvalue: they select different constructors of deathwatched<T>); the copy / move constructors of null_on_move are translated and tied (a copy or a move of a deathwatched object holds no requirement). Pointer level (Props/C13_MonitorChain.lean over Model/Chain.lean, Lemmas/Chain.lean): for every history the older_monitor pointers from the head of each watched object spell the list of live requirements on it, newest first (monitor_chains_refine_world), so the walk in ~deathwatched tells exactly those (death_walk_visits_requirements); the unlink-this loop of ~lifetime_monitor is proved to be erase on a represented chain (rep_unlinkThis). assignw names its source as lvalue, const lvalue, rvalue and const rvalue in turn. Tie/Delegates.lean: lifetime_monitor::is_satisfied / is_saturated = died (public_monitor_queries_tie).',
         ref='DESIGN.md §4 C13', technique='Lean 4 proof (induction over the monitor chain) + model/implementation correspondence'),
     'C14': dict(
         text='Theorems: the linkage invariant WF (every id on a mock function list denotes a live expectation attached to exactly that '
@@ -108,7 +108,7 @@ CLAIMED = {
              'as its multiplicity (includesG_iff_counts), for values iff multiset inclusion (includes_values: Subperm); '
              'range_is_permutation = includes + equal length (isPermG_iff), for values iff Perm (permutation_values); all/any/none incl. '
              'empty range (allOf_iff, anyOf_iff, noneOf_iff, empty_range). Overlapping matchers: the model IS the documented first-fit '
-             'algorithm; the obligation is the correspondence. Exhaustive correspondence as the property asks.',
+             'algorithm; the obligation is the correspondence. Exhaustive correspondence as the property asks. Tie/RangeContainers.lean: the six container / single-matcher checkers (is_range, starts_with_range, ends_with_range, range_all_of / none_of / any_of) are regenerated from range.hpp and proved equal to equal4 / startsWithR / endsWithR / allOf / noneOf / anyOf; with RangeLoops and RangeElements all thirteen checkers are regenerated.',
         ref='DESIGN.md §4 C11', engine='lean-range',
         note='Trusted: Lean kernel; axioms propext/Classical.choice/Quot.sound; Mathlib list Perm/Subperm/count lemmas; statements in '
              'Props/C11.lean; h_range harness (real range matchers evaluated on run-time data through param_matches) and generator. '
@@ -120,7 +120,7 @@ CLAIMED = {
              'non-null and pointee accepted, null never dereferenced (eval_deref, eval_deref_null); MEMBER_IS (eval_member); re = non-null '
              'and found (re_iff, search is an oracle); the six comparisons on ints and strings, null comparison (cmp_int, cmp_str, cmp_null); '
              'plain value operand = eq (plain_value_operand_int); laws (not_anyOf_eq_noneOf, double_negation, empty_operands, '
-             'noneOf_eq_allOf_not). Tie: generated C++ expressions compiled against the real headers, evaluated over whole domains. Proof-side tie (Tie/Compare.lean, regenerated every run): the functor macro and the function table of matcher/compare.hpp, predicate_matcher::matches_, param_matches_impl for matchers and for plain values, the MEMBER_IS functor and any_predicate, composed into eval (compare_matcher_tie: a comparison matcher accepts exactly x op v, argument on the left; param_matches_value_tie). Generated trees include plain nullptr operands and operands of another arithmetic type (k + 0.5 against integer arguments).',
+             'noneOf_eq_allOf_not). Tie: generated C++ expressions compiled against the real headers, evaluated over whole domains. Proof-side tie (Tie/Compare.lean, regenerated every run): the functor macro and the function table of matcher/compare.hpp, predicate_matcher::matches_, param_matches_impl for matchers and for plain values, the MEMBER_IS functor and any_predicate, composed into eval (compare_matcher_tie: a comparison matcher accepts exactly x op v, argument on the left; param_matches_value_tie). Generated trees include plain nullptr operands and operands of another arithmetic type (k + 0.5 against integer arguments). re() is generated with match flags too (match_not_bol, match_not_eol, match_continuous; two- and three-argument forms) on C strings, std::string and string_view; the regex_check tie requires the single call operator.',
         ref='DESIGN.md §4 C10', engine='lean-matcher',
         note='Trusted: Lean kernel; axioms propext/Classical.choice/Quot.sound; statements in Props/C10.lean; generator + generated harness; '
              'std::regex_search modelled as an oracle (answers from Python re on a common pattern subset); the C++ overload/template '
@@ -132,7 +132,7 @@ CLAIMED = {
              'and the state is restored (leaf_default_format_and_restore); with no pending width every value prints as the stateless '
              'structural rendering `{ a, b }`, recursively, and leaves the state unchanged (print_structure); printer<T> wins over operator<< '
              '(printer_wins); hex dump is byte-exact: parsing it back yields every byte in order, for objects of any size '
-             '(hexBytes_roundtrip, hexdump_layout). Found and repaired: F14 (null leaf written without the sentry).',
+             '(hexBytes_roundtrip, hexdump_layout). Found and repaired: F14 (null leaf written without the sentry). Tie/IsNull.lean: the overload set of is_null / is_null_redirect regenerated as tables, is_null_sem (null exactly when the type is null-comparable, neither matcher nor array, and equals nullptr). Expected values held by matchers: Tie/Printers.lean (expected_values_go_through_print over the regenerated printer table) and the self-checking family harness/describe. Found and repaired: F15 (range / any_of / all_of / none_of printers streamed held values raw: a null char const* cut the report short).',
         ref='DESIGN.md §4 C18', engine='lean-print',
         note='Trusted: Lean kernel; axioms propext/Classical.choice/Quot.sound; statements in Props/C18.lean; h_print harness; the standard '
              'stream\'s formatting of int/string under default state and its padding of string literals (`pad`) are modelled, not verified; '
@@ -145,7 +145,7 @@ CLAIMED = {
              'k-th actual argument or an illegal_argument beyond the arity, for all 7 x 16 x 15 combinations (underscore_k_is_kth_argument); '
              'store model of copy vs reference capture (plain_sees_creation_value, lr_sees_call_value). The C++-language part (reference '
              'binding, no copies, [=]/[&] semantics) is VALIDATED, not proved, by a generated self-checking program family over arities, '
-             'positions and passing modes incl. const, overloaded and IMPLEMENT_MOCKed functions. The copies of a plain clause are immutable and the same on every call: clauseLambdas table regenerated from the clause macros and pinned (clause_lambdas, no_clause_lambda_is_mutable); the farm names class-type locals as rvalues over several calls and probes that a write to a captured local compiles in an LR_ clause and not in a plain one.',
+             'positions and passing modes incl. const, overloaded and IMPLEMENT_MOCKed functions. The copies of a plain clause are immutable and the same on every call: clauseLambdas table regenerated from the clause macros and pinned (clause_lambdas, no_clause_lambda_is_mutable); the farm names class-type locals as rvalues over several calls and probes that a write to a captured local compiles in an LR_ clause and not in a plain one. For each arity, RETURN and THROW variants take the address of every _k and compare it with the one the side effect saw; the same for CO_RETURN / CO_YIELD / CO_THROW of an eagerly started arity-15 coroutine (harness/covalue).',
         ref='DESIGN.md §4 C09', engine='lean-gen',
         note='Trusted: Lean kernel; axioms propext/Classical.choice/Quot.sound; the translator (macro bodies -> tables); g++ for the '
              'language semantics of references, lambda captures and moves; the program family tools/argsfarm.py (ASan+UBSan).',
